@@ -146,8 +146,15 @@ class Builder:
             return evs
         if k == 'footnote':
             self.emit(r.choice(['\\footnote{', '\\footnote[2]{']))
+            old = self.lang
+            if self.ml and r.random() < .4:
+                # a hard switch inside the footnote: holds up to its end only
+                self.lang = r.choice(['en', 'de', 'ru'])
+                self.emit('\\selectlanguage{%s} ' % BABEL[self.lang])
+                self.ctx.add('footnote_select')
             evs = self.seq(depth + 2, allow_side=False)
             self.emit('}')
+            self.lang = old
             return evs          # expanded when the footnote macro is expanded: source order
         if k == 'caption':
             self.emit('\\caption{')
@@ -339,7 +346,7 @@ class C10(core.Check):
         q = {'formulas_judged': 20000, 'with_punctuation': 3000, 'second_copies': 300,
              'ml_docs_with_two_languages': 200}
         for c in ('plain', 'unkarg', 'declarg', 'userarg', 'twice', 'item', 'footnote', 'group', 'cell', 'heading', 'heading_lang',
-                  'caption', 'lang_foreign', 'lang_select', 'lang_env', 'lang_nested', 'lang_nested_same', 'lang_footnote'):
+                  'caption', 'lang_foreign', 'lang_select', 'lang_env', 'lang_nested', 'lang_nested_same', 'lang_footnote', 'footnote_select'):
             q['ctx_' + c] = 100
         return q
 
